@@ -88,6 +88,16 @@ func c11Run(e *Env) {
 			return
 		}
 		in := ins[n]
+		if e.Pool.Enabled {
+			// the request belongs to the application until the handler returns (C12)
+			e.Pool.Hold(r.Message, fmt.Sprintf("request n=%d inside its handler", n))
+			snap := Snapshot(r.Message)
+			e.Pool.CheckHandover(snap, "request handed to a handler")
+			defer func() {
+				e.Pool.CheckHeld(r.Message, snap)
+				e.Pool.Unhold(r.Message)
+			}()
+		}
 		e.mu.Lock()
 		in.handled++
 		dispatchSeq++
